@@ -147,6 +147,15 @@ Definition rule_options (rl : rule) : list http_opt := somes (map parse_binding 
 Definition mixin_http_options (cfg : config) : list (string * list http_opt) :=
   map (fun kv => (fst kv, rule_options (snd (snd kv)))) (mixin_api_methods cfg).
 
+(* ---- transports/_rest_mixins_base.py.j2 and generate_mixin_call_method (since /repo 869bd41):
+   _get_request_body_json exists (and __call__ passes data=body) when ANY binding of the rule has a body; the body sent is
+   json.dumps(transcoded_request['body']) when the binding that transcode matched has one, None otherwise ---- *)
+Definition has_body (o : http_opt) : bool := match h_body o with Some _ => true | None => false end.
+Definition rest_body_defined (opts : list http_opt) : bool := existsb has_body opts.
+Definition rest_sends_body (opts : list http_opt) (matched : http_opt) : bool := rest_body_defined opts && has_body matched.
+Definition mixin_body_defined (cfg : config) : list (string * bool) :=
+  map (fun kv => (fst kv, rest_body_defined (snd kv))) (mixin_http_options cfg).
+
 (* ---- template text: client methods (services/%service/_mixins.py.j2 and _async_mixins.py.j2, same order) ---- *)
 Inductive group := GOps | GIam | GLoc.
 Record tmethod := { t_name : string; t_group : group; t_route : string }.
@@ -197,7 +206,7 @@ Definition mkS (n : string) (g : group) (p rq : string) (rs : option string) : s
 Definition STUB_TMPL : list stub :=
   [ mkS "DeleteOperation" GOps "/google.longrunning.Operations/DeleteOperation" "google.longrunning.DeleteOperationRequest" None;
     mkS "CancelOperation" GOps "/google.longrunning.Operations/CancelOperation" "google.longrunning.CancelOperationRequest" None;
-    mkS "WaitOperation" GOps "/google.longrunning.Operations/WaitOperation" "google.longrunning.WaitOperationRequest" None;
+    mkS "WaitOperation" GOps "/google.longrunning.Operations/WaitOperation" "google.longrunning.WaitOperationRequest" (Some "google.longrunning.Operation");
     mkS "GetOperation" GOps "/google.longrunning.Operations/GetOperation" "google.longrunning.GetOperationRequest" (Some "google.longrunning.Operation");
     mkS "ListOperations" GOps "/google.longrunning.Operations/ListOperations" "google.longrunning.ListOperationsRequest" (Some "google.longrunning.ListOperationsResponse");
     mkS "ListLocations" GLoc "/google.cloud.location.Locations/ListLocations" "google.cloud.location.ListLocationsRequest" (Some "google.cloud.location.ListLocationsResponse");
